@@ -107,7 +107,10 @@ META = {
             'exception that leaves run_tasks (uptodate callable raising; KeyboardInterrupt / SystemExit from an action, '
             'serial); 35% of the json cases have printing actions at verbosity 2 (global or per task); 30% of the json cases write to an '
             'output stream that only encodes ascii / latin-1 while actions print non-ASCII text; 30% of the tasks that fail '
-            'by return value fail through a cmd-action killed by SIGKILL / SIGTERM instead; exhaustive tier: every outcome assignment of '
+            'by return value fail through a cmd-action killed by SIGKILL / SIGTERM instead; wave 4: --failure-verbosity 0/1/2 (30%), -v N on the command line (20%), DOIT_CONFIG / per-task verbosity also for the '
+            'console family, custom title / title_with_actions / title returning a number (15% of the tasks), --outfile (15%), '
+            'reporter through a [REPORTER] plugin section + -r (12%), `actions` rejected only at execution time (4%), values '
+            'the DB codec cannot encode (3%), runlib calc_first tasks (p_calc_then_fail 0.15); exhaustive tier: every outcome assignment of '
             'small fixed graphs x --continue x reporter, and every completion order of small thread cases; '
             'non-trivial = something got a final report and the case has an edge or a non-success outcome; distinct = '
             'distinct rendered case + reporter + schedule',
@@ -161,7 +164,8 @@ def sig_unsaveable_values(witness):
     if witness.get('reporter') == 'json':
         if err not in ('', 'crash:TypeError'):
             return False
-    elif err != 'crash:TypeError':
+    elif err != 'crash:TypeError' and not (err == '' and case.get('runner') == 'thread'):
+        # (thread runner: the traceback may land in the stderr Writer of an action still in flight, F-C17a)
         return False
     bad = [n for n, t in enumerate(case.get('tasks') or []) if (t.get('c19') or {}).get('bad_values')]
     return any(['success', n] in tr for n in bad)
@@ -356,13 +360,19 @@ def _wrap_task_dict(d, t, n, rec):
             sys.stderr.write('stderr of task %d%s\n' % (n, extra))
             return orig()
         act_print.__name__ = 'act_print_%d' % n
-        d['actions'] = [act_print]
+        d['actions'] = [act_print] + list(d['actions'][1:])
     if x.get('sigkill') and t['outcome'] == 'failed':
         # the task fails because its last action, a cmd-action, dies from a signal: the python-action (start / end marks,
         # targets) succeeds, then the shell that doit starts for the command kills itself (negative returncode)
-        d['actions'] = [runlib._make_action(rec, n, dict(t, outcome='ok', calc_res=None)), 'kill -%s $$' % x['sigkill']]
+        # A calc_dep task that delivers something is a runlib 'calc_first' task then (its first action returns the calc
+        # values, which doit hands on although the task fails: Run.deliverF); otherwise the helper returns no calc values.
+        if t.get('calc_first'):
+            acts = runlib._make_actions(rec, n, dict(t, outcome='ok'))
+        else:
+            acts = [runlib._make_action(rec, n, dict(t, outcome='ok', calc_res=None))]
+        d['actions'] = acts + ['kill -%s $$' % x['sigkill']]
     if x.get('bad_values') and t['outcome'] == 'ok' and not x.get('base_exc'):
-        inner = d['actions'][0]
+        inner = d['actions'][-1]
         bad = {1, 2} if x['bad_values'] == 'set' else b'x'
 
         def act_badvals():
@@ -371,7 +381,7 @@ def _wrap_task_dict(d, t, n, rec):
                 r = dict(r, unsaveable=bad)
             return r
         act_badvals.__name__ = 'act_badvals_%d' % n
-        d['actions'] = [act_badvals]
+        d['actions'] = list(d['actions'][:-1]) + [act_badvals]
     if x.get('lazy_bad'):
         d['actions'] = [3] if x['lazy_bad'] == 'int' else [(orig, [], {}, 1)]
     if x.get('verbosity') is not None:
@@ -917,6 +927,8 @@ def decorate(c, rng):
         if t['outcome'] == 'failed' and t.get('how', 'return') == 'return' and not _extras(t).get('base_exc') \
                 and rng.random() < 0.3:
             t.setdefault('c19', {})['sigkill'] = rng.choice(['KILL', 'TERM'])
+            if t.get('calc_res') is not None:
+                t['calc_first'] = True
     # ---- wave 4: what the reporters print / where the reporter comes from / lazily invalid actions / unsaveable values
     if rng.random() < 0.3:
         c['fail_verb'] = rng.choice([0, 1, 2, 2])
@@ -935,7 +947,12 @@ def decorate(c, rng):
     if r < 0.08:
         pass
     elif r2 < 0.04:
-        rng.choice(real).setdefault('c19', {})['lazy_bad'] = rng.choice(['int', 'tuple4'])
+        t = rng.choice(real)
+        t.setdefault('c19', {})['lazy_bad'] = rng.choice(['int', 'tuple4'])
+        if t['c19'].get('title') == 'with_actions':
+            # (title_with_actions evaluates task.actions: the InvalidTask would then come out of the reporter's skip_* /
+            #  execute_task line instead of the runner; kept out of the random stream, the Lean rendering does not model it)
+            t['c19']['title'] = 'custom'
     elif r2 < 0.07:
         cand = [t for t in real if t['outcome'] == 'ok' and not t.get('calc_res')]
         if cand:
@@ -1018,7 +1035,7 @@ def eval_batch(batch):
 # case sources
 # ======================================================================================================
 
-KNOBS = {'p_failed': 0.22, 'p_exc': 0.16, 'p_error': 0.1, 'p_ignored': 0.1, 'p_utd': 0.18, 'p_cont': 0.6,
+KNOBS = {'p_calc_then_fail': 0.15, 'p_failed': 0.22, 'p_exc': 0.16, 'p_error': 0.1, 'p_ignored': 0.1, 'p_utd': 0.18, 'p_cont': 0.6,
          'p_dup_sel': 0.0, 'p_teardown': 0.15, 'n_max': 8}
 
 OUTCOMES = ['ok', 'failed', 'error', 'utd', 'ignored', 'staterr', 'utdraise']
